@@ -12,6 +12,8 @@ pub enum Listener {
     Tcp(TcpListener),
     #[cfg(unix)]
     Unix(unix_net::UnixListener),
+    #[cfg(tiny_http_verif)]
+    Mem(tiny_http_verif_rt::mem::MemListener),
 }
 impl Listener {
     pub(crate) fn local_addr(&self) -> std::io::Result<ListenAddr> {
@@ -19,6 +21,8 @@ impl Listener {
             Self::Tcp(l) => l.local_addr().map(ListenAddr::from),
             #[cfg(unix)]
             Self::Unix(l) => l.local_addr().map(ListenAddr::from),
+            #[cfg(tiny_http_verif)]
+            Self::Mem(_) => Ok(ListenAddr::IP(SocketAddr::from(([0, 0, 0, 0], 0)))),
         }
     }
 
@@ -29,7 +33,24 @@ impl Listener {
                 .map(|(conn, addr)| (Connection::from(conn), Some(addr))),
             #[cfg(unix)]
             Self::Unix(l) => l.accept().map(|(conn, _)| (Connection::from(conn), None)),
+            #[cfg(tiny_http_verif)]
+            Self::Mem(l) => l.accept().map(|conn| (Connection::Mem(conn), None)),
         }
+    }
+}
+#[cfg(tiny_http_verif)]
+impl Listener {
+    pub(crate) fn verif_mem(&self) -> Option<tiny_http_verif_rt::mem::MemListener> {
+        match self {
+            Self::Mem(l) => Some(l.clone()),
+            _ => None,
+        }
+    }
+}
+#[cfg(tiny_http_verif)]
+impl From<tiny_http_verif_rt::mem::MemListener> for Listener {
+    fn from(s: tiny_http_verif_rt::mem::MemListener) -> Self {
+        Self::Mem(s)
     }
 }
 impl From<TcpListener> for Listener {
@@ -50,6 +71,8 @@ pub(crate) enum Connection {
     Tcp(TcpStream),
     #[cfg(unix)]
     Unix(unix_net::UnixStream),
+    #[cfg(tiny_http_verif)]
+    Mem(tiny_http_verif_rt::mem::MemConn),
 }
 impl std::io::Read for Connection {
     fn read(&mut self, buf: &mut [u8]) -> std::io::Result<usize> {
@@ -57,6 +80,8 @@ impl std::io::Read for Connection {
             Self::Tcp(s) => s.read(buf),
             #[cfg(unix)]
             Self::Unix(s) => s.read(buf),
+            #[cfg(tiny_http_verif)]
+            Self::Mem(s) => s.read(buf),
         }
     }
 }
@@ -66,6 +91,8 @@ impl std::io::Write for Connection {
             Self::Tcp(s) => s.write(buf),
             #[cfg(unix)]
             Self::Unix(s) => s.write(buf),
+            #[cfg(tiny_http_verif)]
+            Self::Mem(s) => s.write(buf),
         }
     }
 
@@ -74,6 +101,8 @@ impl std::io::Write for Connection {
             Self::Tcp(s) => s.flush(),
             #[cfg(unix)]
             Self::Unix(s) => s.flush(),
+            #[cfg(tiny_http_verif)]
+            Self::Mem(s) => s.flush(),
         }
     }
 }
@@ -84,6 +113,8 @@ impl Connection {
             Self::Tcp(s) => s.peer_addr().map(Some),
             #[cfg(unix)]
             Self::Unix(_) => Ok(None),
+            #[cfg(tiny_http_verif)]
+            Self::Mem(_) => Ok(None),
         }
     }
 
@@ -92,6 +123,8 @@ impl Connection {
             Self::Tcp(s) => s.shutdown(how),
             #[cfg(unix)]
             Self::Unix(s) => s.shutdown(how),
+            #[cfg(tiny_http_verif)]
+            Self::Mem(s) => s.shutdown(how),
         }
     }
 
@@ -100,6 +133,8 @@ impl Connection {
             Self::Tcp(s) => s.try_clone().map(Self::from),
             #[cfg(unix)]
             Self::Unix(s) => s.try_clone().map(Self::from),
+            #[cfg(tiny_http_verif)]
+            Self::Mem(s) => Ok(Self::Mem(s.clone())),
         }
     }
 }
